@@ -198,10 +198,12 @@ structure Bbr.Inv (c : Bbr) : Prop where
   initCwnd : 2 * c.mtu ≤ c.initCwnd
   rw : c.recovery.inRecovery = true → 2 * c.mtu ≤ c.recoveryWindow
 
-theorem bbr_new_inv (mtu : Nat) (h : 2 * mtu ≤ Gen.bbrDefaultInitialWindow) : (Bbr.new mtu).Inv := by
-  refine ⟨?_, h, h, ?_⟩
-  · simp [Bbr.new, calculateMinWindow, Gen.bbrMinWindowFactor]
-  · intro hr; simp [Bbr.new, Recovery.inRecovery] at hr
+theorem bbr_newWith_inv (initialWindow mtu : Nat) : (Bbr.newWith initialWindow mtu).Inv := by
+  refine ⟨?_, ?_, ?_, ?_⟩
+  · simp [Bbr.newWith, Gen.bbrInitialMinCwnd]
+  · simp only [Bbr.newWith, Gen.bbrInitialCwnd, natMax_eq]; omega
+  · simp only [Bbr.newWith, Gen.bbrInitialInitCwnd, natMax_eq]; omega
+  · intro hr; simp [Bbr.newWith, Recovery.inRecovery] at hr
 
 /-- what `window()` returns is at least two datagrams whenever the invariant holds -/
 theorem bbr_window_floor (c : Bbr) (hi : c.Inv) (tc : Option Nat) (w : Nat) (hw : c.window tc = some w) :
@@ -334,14 +336,7 @@ theorem bbr_onEndAcks_inv (c : Bbr) (inf : Nat) (lg : Option Nat) (o : BbrEndObs
   · show 2 * Bbr.mtu _ ≤ Bbr.initCwnd _
     rw [f4, f1, s4, s1]; exact i3
 
-/-- the only call that can break the invariant: an MTU increase while in recovery (`on_mtu_update` raises
-    `min_cwnd`, `init_cwnd`, `cwnd` but not `recovery_window`) -/
-def BbrOp.safe (c : Bbr) : BbrOp → Prop
-  | .mtu m => c.recovery = .notInRecovery ∨ m ≤ c.mtu
-  | _ => True
-
-theorem bbr_step_inv (c : Bbr) (op : BbrOp) (c' : Bbr) (hi : c.Inv) (hs : op.safe c)
-    (h : c.step op = (c', .ok)) : c'.Inv := by
+theorem bbr_step_inv (c : Bbr) (op : BbrOp) (c' : Bbr) (hi : c.Inv) (h : c.step op = (c', .ok)) : c'.Inv := by
   obtain ⟨i1, i2, i3, i4⟩ := hi
   cases op with
   | sent pn => simp only [Bbr.step, Bbr.onSent] at h; cases h; exact ⟨i1, i2, i3, i4⟩
@@ -358,69 +353,37 @@ theorem bbr_step_inv (c : Bbr) (op : BbrOp) (c' : Bbr) (hi : c.Inv) (hs : op.saf
     · cases h; exact ⟨i1, i2, i3, i4⟩
   | spurious => simp only [Bbr.step] at h; cases h; exact ⟨i1, i2, i3, i4⟩
   | mtu m =>
+    -- `on_mtu_update` raises min_cwnd, init_cwnd, cwnd AND recovery_window to the new floor
     simp only [Bbr.step, Bbr.onMtuUpdate] at h
     cases h
-    simp only [BbrOp.safe] at hs
     refine ⟨?_, ?_, ?_, ?_⟩
     · simp [calculateMinWindow, Gen.bbrMinWindowFactor]
     · simp only [Gen.bbrMtuCwnd, calculateMinWindow, Gen.bbrMinWindowFactor, natMax_eq]; omega
     · simp only [Gen.bbrMtuInitCwnd, calculateMinWindow, Gen.bbrMinWindowFactor, natMax_eq]; omega
-    · intro hr
-      dsimp only at hr ⊢
-      rcases hs with hs | hs
-      · rw [hs] at hr; simp [Recovery.inRecovery] at hr
-      · have := i4 hr; omega
+    · intro _
+      simp only [Gen.bbrMtuRecoveryWindow, calculateMinWindow, Gen.bbrMinWindowFactor, natMax_eq]; omega
 
-def BbrOp.safeB (c : Bbr) : BbrOp → Bool
-  | .mtu m => decide (c.recovery = .notInRecovery) || decide (m ≤ c.mtu)
-  | _ => true
-
-theorem safeB_iff (c : Bbr) (op : BbrOp) : op.safeB c = true ↔ op.safe c := by
-  cases op <;> simp [BbrOp.safeB, BbrOp.safe]
-
-/-- every MTU change of the history is either a decrease or happens outside recovery (checked along the
-    run; a call that panics ends the history) -/
-def Bbr.safeRunB : Bbr → List BbrOp → Bool
-  | _, [] => true
-  | c, op :: t =>
-    op.safeB c && (match c.step op with
-      | (c', .ok) => c'.safeRunB t
-      | _ => true)
-
-def Bbr.SafeRun (c : Bbr) (ops : List BbrOp) : Prop := c.safeRunB ops = true
-
-instance (c : Bbr) (ops : List BbrOp) : Decidable (c.SafeRun ops) := by unfold Bbr.SafeRun; infer_instance
-
-theorem bbr_run_inv (ops : List BbrOp) (c c' : Bbr) (hi : c.Inv) (hs : c.SafeRun ops) (h : c.run ops = some c') :
-    c'.Inv := by
+theorem bbr_run_inv (ops : List BbrOp) (c c' : Bbr) (hi : c.Inv) (h : c.run ops = some c') : c'.Inv := by
   induction ops generalizing c with
   | nil => simp only [Bbr.run, Option.some.injEq] at h; subst h; exact hi
   | cons op t ih =>
     simp only [Bbr.run] at h
-    unfold Bbr.SafeRun at hs
-    simp only [Bbr.safeRunB, Bool.and_eq_true] at hs
     cases hst : c.step op with
     | mk c1 out =>
-      rw [hst] at h hs
+      rw [hst] at h
       cases out with
       | ok =>
-        dsimp only at h hs
-        exact ih c1 (bbr_step_inv c op c1 hi ((safeB_iff c op).1 hs.1) hst) hs.2 h
+        dsimp only at h
+        exact ih c1 (bbr_step_inv c op c1 hi hst) h
       | panic => cases h
       | badObs => cases h
 
-/-! ### the floor statements for BBR -/
+/-! ### the floor statement for BBR -/
 
-/-- "the built-in controllers never report a window below two datagrams", for BBR built with its default
-    config on an MTU for which the initial window is at least two datagrams -/
-def bbr_floor_statement : Prop :=
-  ∀ (mtu0 : Nat) (ops : List BbrOp) (c : Bbr) (tc : Option Nat) (w : Nat),
-    2 * mtu0 ≤ Gen.bbrDefaultInitialWindow → (Bbr.new mtu0).run ops = some c → c.window tc = some w →
-    2 * c.mtu ≤ w
-
-/-- F7 witness (= /verif/corpus/cc/F7.ops with the observed values the real code produced): two packets
-    acked, first `on_end_acks` enters PROBE_RTT; a loss; next round start enters recovery, full bandwidth,
-    PROBE_BW with `recovery_window = min_cwnd = 4800`; then the MTU grows from 1200 to 9000 -/
+/-- the former F7 witness (= /verif/corpus/cc/F7.ops with the observed values the real code produced), kept
+    as a regression history: two packets acked, first `on_end_acks` enters PROBE_RTT; a loss; next round start
+    enters recovery, full bandwidth, PROBE_BW with `recovery_window = min_cwnd = 4800`; then the MTU grows from
+    1200 to 9000.  Before the fix `window()` was 4800 afterwards. -/
 def f7Witness : List BbrOp :=
   [.sent 1, .sent 2, .ack 1200, .ack 1200,
    .endAcks 0 (some 2) ⟨2400, .probeRtt, false, none, none⟩,
@@ -428,37 +391,19 @@ def f7Witness : List BbrOp :=
    .endAcks 0 (some 4) ⟨1200, .probeBw, true, some 120000, some true⟩,
    .mtu 9000]
 
-theorem f7_window : ((Bbr.new 1200).run f7Witness).bind (fun c => c.window none) = some 4800 := by decide
+theorem f7_window : ((Bbr.new 1200).run f7Witness).bind (fun c => c.window none) = some 36000 := by decide
 
-theorem f7_mtu : ((Bbr.new 1200).run f7Witness).map (·.mtu) = some 9000 := by decide
+theorem f7_state : ((Bbr.new 1200).run f7Witness).map (fun c => (c.mtu, c.recovery, c.mode, c.recoveryWindow, c.cwnd))
+    = some (9000, .conservation, .probeBw, 36000, 120000) := by decide
 
-theorem bbr_floor_counterexample' : ¬ bbr_floor_statement := by
-  intro h
-  cases hr : (Bbr.new 1200).run f7Witness with
-  | none => have := f7_mtu; rw [hr] at this; cases this
-  | some c =>
-    have h1 := f7_window; have h2 := f7_mtu
-    rw [hr] at h1 h2
-    simp only [Option.bind_some, Option.map_some, Option.some.injEq] at h1 h2
-    have := h 1200 f7Witness c none 4800 (by decide) hr h1
-    omega
+theorem bbr_floor' (initialWindow mtu0 : Nat) (ops : List BbrOp) (c : Bbr) (tc : Option Nat) (w : Nat)
+    (hr : (Bbr.newWith initialWindow mtu0).run ops = some c) (hw : c.window tc = some w) : 2 * c.mtu ≤ w :=
+  bbr_window_floor c (bbr_run_inv ops _ c (bbr_newWith_inv initialWindow mtu0) hr) tc w hw
 
-theorem bbr_floor_partial' (mtu0 : Nat) (ops : List BbrOp) (c : Bbr) (tc : Option Nat) (w : Nat)
-    (h0 : 2 * mtu0 ≤ Gen.bbrDefaultInitialWindow) (hs : (Bbr.new mtu0).SafeRun ops)
-    (hr : (Bbr.new mtu0).run ops = some c) (hw : c.window tc = some w) : 2 * c.mtu ≤ w :=
-  bbr_window_floor c (bbr_run_inv ops _ c (bbr_new_inv mtu0 h0) hs hr) tc w hw
+theorem reno_newWith_floor (initialWindow mtu : Nat) : (Reno.newWith initialWindow mtu).Floor := by
+  simp only [Reno.Floor, Reno.newWith, Gen.newRenoInitialWindow, natMax_eq]; omega
 
-/-- the witness is outside the excluded family only at its last call -/
-theorem f7_unsafe : ¬ (Bbr.new 1200).SafeRun f7Witness := by
-  intro h
-  have := bbr_floor_partial' 1200 f7Witness
-  cases hr : (Bbr.new 1200).run f7Witness with
-  | none => have := f7_mtu; rw [hr] at this; cases this
-  | some c =>
-    have h1 := f7_window; have h2 := f7_mtu
-    rw [hr] at h1 h2
-    simp only [Option.bind_some, Option.map_some, Option.some.injEq] at h1 h2
-    have := this c none 4800 (by decide) h hr h1
-    omega
+theorem cubic_newWith_floor (initialWindow mtu : Nat) : (Cubic.newWith initialWindow mtu).Floor := by
+  simp only [Cubic.Floor, Cubic.newWith, Gen.cubicInitialWindow, natMax_eq]; omega
 
 end QM.Controllers
